@@ -29,6 +29,9 @@ def parse(text: str, statement_stream_processor: "StatementStreamProcessor", *, 
     pr = _ParseTreeProcessor(statement_stream_processor, strict=strict)
     try:
         pr.visit(_get_grammar().parse(text))  # type: ignore
+        # The text may end without an empty line (e.g., no trailing end-of-line), in which case the last attribute
+        # and its doc comment are still pending; commit them as an empty line would.
+        pr._flush_comment()  # pylint: disable=protected-access
     except _error.Error as ex:
         # Inject error location. If this exception is being propagated from a recursive instance, it already has
         # its error location populated, so nothing will happen here.
